@@ -70,7 +70,9 @@ def trace_of(traces, sc_id):
 
 def conclude(prop, tier, res, wall):
     known, fixed = vlib.load_known()
-    known = [k for k in known if k["prop"] == prop]
+    sweep = bool(os.environ.get("VERIF_SWEEP"))
+    if not sweep:
+        known = [k for k in known if k["prop"] == prop]
     hits = res.get("hits", [])
     unlisted, listed = [], {}
     for h in hits:
@@ -84,6 +86,16 @@ def conclude(prop, tier, res, wall):
             print("KNOWN-FINDING: property=%s %s" % (prop, k["what"]))
         else:
             print("NOTE: known finding %s of %s was not reproduced by this run's pinned witness (repaired, or tier did not reach it)" % (k["sig"], prop))
+    if sweep:
+        # debugging aid (bin/sweep): histogram of every unlisted hit of every monitor, by scenario family
+        import collections, re as _re
+        hist, ex = collections.Counter(), {}
+        for h in unlisted:
+            k = (h["name"], h.get("sig", ""), _re.sub(r"-[0-9]+.*$", "", h["sc"]))
+            hist[k] += 1
+            ex.setdefault(k, h["sc"])
+        for k, n in sorted(hist.items()):
+            print("SWEEP %s %s %s n=%d e.g. %s" % (k[0], k[1], k[2], n, ex[k]))
     seen = set()
     nviol = 0
     for h in unlisted:
